@@ -199,6 +199,7 @@ def run(ctx, run):
     _no_signed_remainder(ctx, run)
     _invalid_day_test(ctx, run)
     _conversion_validates(ctx, run)
+    _utc_shortcut_only_for_utc(ctx, run)
     _offset_applied(ctx, run)
     _sibling_thresholds(ctx, run)
     _leap_check_after_date(ctx, run)
@@ -697,6 +698,39 @@ def _no_signed_remainder(ctx, run):
         run.holds("RF-SIGN", "RF-SIGN:pdc.c:signed-remainder", "%d remainder operations in pdc.c, none on a possibly negative signed "
                   "operand" % n, "src/pdc.c", nontrivial=False)
     run.floor("remainder / power-of-two mask operations in pdc.c", n, 2)
+
+
+def _utc_shortcut_only_for_utc(ctx, run):
+    """A function that is given a time zone *name* may take the UTC-offset implementation (offset 0) only when the name
+    is "UTC": the call is dominated by tz != NULL and strcmp (tz, "UTC") == 0.  tz == NULL means the zone of the process
+    (the TZ variable), which is not UTC in general."""
+    from .. import atoms
+    P = ctx.prog
+    n = 0
+    for f in P.funcs:
+        if f.file != "src/pdc.c" or f.cfg_failed:
+            continue
+        tzp = [p["name"] for p in f.params if p.get("t", "").replace(" ", "") == "constchar*"]
+        if not tzp:
+            continue
+        for bid, i in flow.all_events(f):
+            e = f.exprs[i]
+            if e["k"] != "call" or e.get("callee") not in ("valid_pil_lto_validity_window", "valid_pil_lto_to_time", "pty_utc_validity_window"):
+                continue
+            n += 1
+            run.touch(f)
+            ats = atoms.atoms_at(f, i)
+            nn = any(a.rel == "!=" and a.R is not None and a.R.const == 0 and set(tzp) & a.L.locals and not a.L.calls for a in ats)
+            eq = any(a.call_cmp("strcmp", "==", 0) and "UTC" in (a.L.strs | (a.R.strs if a.R is not None else set())) for a in ats) \
+                or any(a.call_cmp("strcmp", "==", 0) for a in ats)
+            key = "RF-DOM:%s:utc-shortcut" % f.name
+            if nn and eq:
+                run.holds("RF-DOM", key, "`%s` only under tz != NULL and strcmp (tz, \"UTC\") == 0" % ex.pretty(f, i)[:50], ex.loc(f, i))
+            else:
+                run.violation("RF-DOM", key, "`%s` (the UTC-offset implementation, offset 0) is reached without tz != NULL and "
+                              "strcmp (tz, \"UTC\") == 0: for tz == NULL (the zone of the process) the window is computed in UTC"
+                              % ex.pretty(f, i)[:60], ex.loc(f, i), witness={"dominating": [repr(a) for a in ats][:6]})
+    run.floor("UTC shortcuts in functions taking a zone name", n, 1)
 
 
 def _conversion_validates(ctx, run):
